@@ -18,7 +18,8 @@ Fixpoint run (debug : bool) (v : view) (ops : list line) : list (list line) :=
   match ops with
   | [] => []
   | o :: rest =>
-      if Nat.ltb (fst o) 10 then [] :: run debug (view_add v o) rest
+      if Nat.eqb (fst o) 9 then [] :: run debug (view_init (snd o)) rest     (* C07: the next encoding's view starts *)
+      else if Nat.ltb (fst o) 10 then [] :: run debug (view_add v o) rest
       else answer debug v o :: run debug v rest
   end.
 
